@@ -73,6 +73,28 @@ func c19Check1(k c19Case) (string, string) {
 		return "", ""
 	}
 	switch k.Kind {
+	case "noncanonical-first":
+		// (self-contained: in a fresh process - a replay - it runs before anything else was encoded)
+		for method := 0; method < 4096; method++ {
+			for _, class := range []uint8{0x04, 0x0C, 0x13, 0x80, 0xFF} {
+				t := stun.MessageType{Method: stun.Method(method), Class: stun.MessageClass(class)}
+				var got uint16
+				if p := catch(func() { got = t.Value() }); p != "" {
+					continue // (a debug build may refuse such a value: not a wire type)
+				}
+				if want := refTypeEncode(uint16(method), class&3); got != want {
+					return "enc-noncanonical-class", fmt.Sprintf("Value(method %#x, class byte %#x) = %#04x, want %#04x (the class has two bits)", method, class, got, want)
+				}
+			}
+		}
+		for method := 0; method < 4096; method++ {
+			for class := 0; class < 4; class++ {
+				if got, want := stun.NewType(stun.Method(method), stun.MessageClass(class)).Value(), refTypeEncode(uint16(method), uint8(class)); got != want {
+					return "enc-layout/after-noncanonical-types", fmt.Sprintf("after types with a Class byte above 3 were encoded, Value(method=%#x,class=%d)=%#04x, RFC 5389 figure 3 gives %#04x", method, class, got, want)
+				}
+			}
+		}
+		return "", ""
 	case "enc":
 		t := stun.NewType(stun.Method(k.Method), stun.MessageClass(k.Class))
 		got := t.Value()
@@ -164,6 +186,16 @@ func init() {
 	registry["C19"] = propImpl{
 		Run: func(c *Ctx) {
 			var i int64
+			// first of all (before this process has encoded any canonical type): types whose Class byte has bits above
+			// the two that exist. Value ignores them; it must go on doing so without poisoning anything it keeps.
+			if c.Shard == 0 {
+				c.Eval(1)
+				k := c19Case{Kind: "noncanonical-first"}
+				if key, d := c19Check(k); key != "" {
+					c.Violation(key, d, k)
+				}
+				c.Outcome("enc-noncanonical-class-first")
+			}
 			for method := 0; method < 4096; method++ {
 				for class := 0; class < 4; class++ {
 					i++
